@@ -127,3 +127,83 @@ def _replay_bounds(inp):
 
 
 REPLAYERS["loop[haplobin_bounds: run-length boundaries partition the markers]"] = _replay_bounds
+
+
+from pyvc import barr, modeb
+OHVP = "pybrops/breed/prot/sel/prob/OptimalHaploidValueSelectionProblem.py"
+R = lambda x: (z3.ToReal(_t(x)) if _t(x).sort() == z3.IntSort() else _t(x))
+
+
+@unit(P, "B[_calc_ohvmat == ploidy * sum over blocks of the best haplotype among the cross's parents; chunk invariant; bounds every block-wise choice]",
+      "B", bounded=True, targets=[OHVP + ":OptimalHaploidValueSelectionProblemMixin._calc_ohvmat"],
+      note="bounded(shape): <=3 taxa, <=2 blocks, <=2 traits, 1-3 parents per cross, chunk 1/2/None; block values symbolic reals")
+def u_b_ohv(ctx):
+    def body(e, shape, tag):
+        from pybrops.breed.prot.sel.prob.OptimalHaploidValueSelectionProblem import OptimalHaploidValueSelectionProblemMixin as M
+        n, b, t, xmap, mem = shape
+        H = barr.fresh("h", (2, n, b, t), "float64")
+        xm = numpy.array(xmap, dtype=int)
+        out = M._calc_ohvmat(2, H, xm, mem)
+        e.prove(tag + ":shape", tuple(out.shape) == (len(xm), t))
+        for c, cfg in enumerate(xm):
+            for k in range(t):
+                tot = z3.RealVal(0)
+                for blk in range(b):
+                    cands = [R(H[ph, int(par), blk, k]) for ph in range(2) for par in cfg]
+                    mx = cands[0]
+                    for v in cands[1:]:
+                        mx = z3.If(v > mx, v, mx)
+                    tot = tot + mx
+                e.prove(tag + ":ohv[%d,%d]==ploidy*sum_blocks max over the parents' haplotypes" % (c, k), R(out[c, k]) == 2 * tot)
+                # the bound: any doubled haploid assembled block-wise from the parents' haplotypes has value <= ohv
+                pick = [(sym.fresh_int("ph%d" % blk, 0, 1), sym.fresh_int("pa%d" % blk, 0, len(cfg) - 1)) for blk in range(b)]
+                val = z3.RealVal(0)
+                for blk, (ph, pa) in enumerate(pick):
+                    term = z3.RealVal(0)
+                    for phv in range(2):
+                        for pi, par in enumerate(cfg):
+                            term = z3.If(z3.And(ph.t == phv, pa.t == pi), R(H[phv, int(par), blk, k]), term)
+                    val = val + term
+                e.prove(tag + ":ohv[%d,%d] bounds every block-wise doubled haploid of the cross" % (c, k), 2 * val <= R(out[c, k]))
+        e.prove(tag + ":canary:ohv-is-the-first-parent's-value", R(out[0, 0]) == 2 * sum((R(H[0, int(xm[0][0]), blk, 0]) for blk in range(b)), z3.RealVal(0)),
+                expect="fail", timeout_ms=2000)
+        return "ok"
+    shapes = [(2, 1, 1, ((0, 1),), 1024), (2, 2, 1, ((0, 1), (1, 1)), 1), (3, 2, 1, ((0, 1, 2), (2, 2, 0), (1, 0, 1)), 2),
+              (3, 1, 2, ((2,), (0,)), None)]
+    if ctx.tier == "thorough":
+        shapes += [(3, 2, 2, ((0, 2), (1, 2), (0, 0)), 2)]
+    modeb.run_shapes(ctx, "ohv", shapes, body, max_paths=20000)
+
+
+@unit(P, "B[haplomat: block value == effects summed over the block's markers; blocks together conserve the additive value]", "B", bounded=True,
+      targets=[HAP + ":haplomat"],
+      note="bounded(shape): <=2 phases x <=2 taxa x <=5 markers on 1-2 chromosomes (concrete genetic positions without empty bins), "
+           "<=2 traits; alleles and effects symbolic")
+def u_b_haplomat(ctx):
+    def body(e, shape, tag):
+        from pybrops.core.util.haplo import haplomat, nhaploblk_chrom, haplobin, haplobin_bounds
+        nblk, genpos, stix, spix, n, t = shape
+        genpos = numpy.array(genpos, dtype=float)
+        stix, spix = numpy.array(stix), numpy.array(spix)
+        p = len(genpos)
+        G = barr.fresh("g", (2, n, p), "int8", 0, 1)
+        u = barr.fresh("u", (p, t), "float64")
+        hm = haplomat(nblk, G, genpos, stix, spix, spix - stix, u)
+        e.prove(tag + ":shape", tuple(hm.shape) == (2, n, nblk, t))
+        # the partition itself is concrete here (the library's own bins for these positions)
+        hb = haplobin(nhaploblk_chrom(nblk, genpos, stix, spix), genpos, stix, spix)
+        hs, hp, hl = haplobin_bounds(hb)
+        e.prove(tag + ":layout-has-the-requested-number-of-blocks", len(hs) == nblk)
+        for m in range(2):
+            for i in range(n):
+                for k in range(t):
+                    for b_, (a, z) in enumerate(zip(hs, hp)):
+                        e.prove(tag + ":block[%d,%d,%d,%d]==sum of allele*effect over its markers" % (m, i, b_, k),
+                                R(hm[m, i, b_, k]) == sum((R(G[m, i, j]) * R(u[j, k]) for j in range(int(a), int(z))), z3.RealVal(0)))
+                    e.prove(tag + ":blocks[%d,%d,:,%d] sum to the additive value of the chromosome copy" % (m, i, k),
+                            sum((R(hm[m, i, b_, k]) for b_ in range(nblk)), z3.RealVal(0))
+                            == sum((R(G[m, i, j]) * R(u[j, k]) for j in range(p)), z3.RealVal(0)))
+        return "ok"
+    shapes = [(1, (0.0, 0.5, 1.0), (0,), (3,), 1, 1), (2, (0.0, 0.3, 0.7, 1.0), (0,), (4,), 2, 1),
+              (3, (0.0, 1.0, 0.0, 0.4, 1.0), (0, 2), (2, 5), 1, 2)]
+    modeb.run_shapes(ctx, "haplomat", shapes, body)
